@@ -4,12 +4,12 @@ import json, os, sys
 V = os.path.dirname(os.path.dirname(os.path.abspath(__file__)))
 rnd = int(sys.argv[1]) if len(sys.argv) > 1 else 2
 ids = sorted(d for d in os.listdir(os.path.join(V, "seeded")) if os.path.exists(os.path.join(V, "seeded", d, "meta.json")))
-if rnd == 2:
+if rnd >= 2:
     print("| id | aimed at | change | needs to manifest | first run of the target check | strengthening | caught by now (exit 1, reproduced; `git apply` in /repo) |")
     print("|---|---|---|---|---|---|---|")
     for i in ids:
         m = json.load(open(os.path.join(V, "seeded", i, "meta.json")))
-        if m.get("round") != 2:
+        if m.get("round") != rnd:
             continue
         conf = m.get("confirmed_with_git_apply_in_repo", {})
         caught = ", ".join(k for k, v in sorted(conf.items()) if v == 1) or "—"
